@@ -27,11 +27,11 @@ CLAIMS = {
         text="For each of the nine rules every returning path is compared with the RFC's own decision procedure evaluated on the facts the path established (which neighbours exist, which table predicates hold, which constants the code point equals): the RFC answer must be determined by those facts and equal the returned value, for every label and position. Scan loops are closed by an inductive argument checked on the MIR state, not by unrolling.",
         ref="§4 C03",
     ),
-    "C04": dict(technique="pipeline extraction: abstract interpretation with the rule implementations as Ok/Err oracles and content tags for strings; extracted path set compared with the RFC 8265 §3 pipeline", category="other", text="All paths of prepare/enforce of both username profiles are enumerated (which rule ran on which string, every failure exit and the error it returns, the string returned) and must equal the specified pipeline; covers every input string because the methods observe strings only through the leaf rules.", ref="§4 C04"),
-    "C05": dict(technique="pipeline extraction (as C04) for OpaqueString prepare/enforce against RFC 8265 §4.2", category="other", text="Same engine as C04: validation on the untouched input, space mapping, NFC, non-empty, nothing else; the leaves' own semantics are C12/C02/C14.", ref="§4 C05"),
-    "C06": dict(technique="pipeline extraction of Nickname prepare/enforce and of the closure handed to stabilize, against RFC 8266 §2", category="other", text="enforce must be stabilize(input, closure) returned unchanged and the closure body must be the whole rule set (validate, space rule, NFKC, non-empty; no case mapping). Fixed point / iteration bound are C13, the space rule C12.", ref="§4 C06"),
-    "C07": dict(technique="pipeline extraction of the four compare bodies and the static-form forwarders", category="other", text="compare must be enforce(a)? ; enforce(b)? ; content equality of the two results (first operand's error first, never Ok after an error); Nickname via stabilize with the comparison rule set on both operands; the static forms forward (s1, s2) in order.", ref="§4 C07"),
-    "C08": dict(technique="must-pass-through check on the extracted enforce pipelines (own-class validation precedes only whitelisted transforms; Nickname returns only stabilize's fixed point)", category="other", text="PARTLY CLAIMED: structural necessary conditions only. NOT decided: whether to_lowercase/NFC/NFKC (library Unicode data) can produce DISALLOWED/UNASSIGNED characters from valid ones, and idempotence of the transform chain for every string.", ref="§4 C08"),
+    "C04": dict(technique="pipeline extraction: abstract interpretation with the rule implementations as Ok/Err oracles and content tags for strings; extracted path set compared with the RFC 8265 §3 pipeline", category="other", text="All paths of prepare/enforce of both username profiles are enumerated (which rule ran on which string, every failure exit and the error it returns, the string returned) and must equal the specified pipeline; covers every input string because the methods observe strings only through the leaf rules. The leaf rules' own semantics are adopted as dependency obligations (the quick obligations of C11 width, C10 case, C09 directionality, C14/C02 IdentifierClass, keyed dep|<leaf>|…), so a defect in a leaf is reported here too; the C09 known finding is listed for this property as well.", ref="§4 C04"),
+    "C05": dict(technique="pipeline extraction (as C04) for OpaqueString prepare/enforce against RFC 8265 §4.2", category="other", text="Same engine as C04: validation on the untouched input, space mapping, NFC, non-empty, nothing else; the leaves' own semantics (C12 space mapping, C14/C02 FreeformClass) are adopted as dependency obligations.", ref="§4 C05"),
+    "C06": dict(technique="pipeline extraction of Nickname prepare/enforce and of the closure handed to stabilize, against RFC 8266 §2", category="other", text="enforce must be stabilize(input, closure) returned unchanged and the closure body must be the whole rule set (validate, space rule, NFKC, non-empty; no case mapping). Fixed point / iteration bound (C13), the space rule (C12) and FreeformClass (C14/C02) are adopted as dependency obligations.", ref="§4 C06"),
+    "C07": dict(technique="pipeline extraction of the four compare bodies and the static-form forwarders", category="other", text="compare must be enforce(a)? ; enforce(b)? ; content equality of the two results (first operand's error first, never Ok after an error); Nickname via stabilize with the comparison rule set on both operands; the static forms forward (s1, s2) in order. The leaf rules (C13, C12, C10, C11, C09, C14, C02) are adopted as dependency obligations; the C09 known finding is listed for this property as well.", ref="§4 C07"),
+    "C08": dict(technique="must-pass-through check on the extracted enforce pipelines (own-class validation precedes only whitelisted transforms; Nickname returns only stabilize's fixed point)", category="other", text="PARTLY CLAIMED: structural necessary conditions only. NOT decided: whether to_lowercase/NFC/NFKC (library Unicode data) can produce DISALLOWED/UNASSIGNED characters from valid ones, and idempotence of the transform chain for every string. The post-validation transforms must be the specified functions: normaliser wrappers pair is_nfX with nfX, and C13/C10/C11/C12 are adopted as dependency obligations.", ref="§4 C08"),
     "C09": dict(technique="loop-automaton extraction of satisfy_bidi_rule over the 23 bidi classes, has_rtl and bidi_class_cp decided per code point against the folded table (paths × intervals), wrapper decision table, product-construction language comparison with the DFA of RFC 5893's six conditions; bidi table compared with UnicodeData 16.0.0 on every code point", category="other", text="The composed language (no R/AL/AN or Bidi rule satisfied) is compared with the RFC for ALL class words at once; a difference yields a shortest distinguishing word. One known finding (D3, interior NSM in RTL labels, enshrined by the repository's tests) is keyed by a language K; any deviation outside K is a violation.", ref="§4 C09"),
     "C10": dict(technique="copy-on-first-change discipline: trigger class set, untouched-input branch, prefix/suffix split, one-state loop transducer over case classes read from DerivedCoreProperties.txt", category="other", text="Decides for all strings that every character with a lowercase mapping is mapped (whole mapping) wherever it stands: the trigger set must contain every changing class and the loop must be stateless. std's predicates are bound to the UCD properties by their documentation.", ref="§4 C10"),
     "C11": dict(technique="table = <wide>/<narrow> decompositions of UnicodeData 16.0.0 (every code point), idempotence and scalar-ness of values, lookup semantics, copy-on-first-change discipline over {mapped, other}", category="other", text="Data clause decided on every code point; code clause decided for all strings by the extracted one-state transducer whose trigger is computed from the mapper itself.", ref="§4 C11"),
